@@ -99,6 +99,15 @@ list:
 &anchor k: v
 alias: *anchor
 """,
+    # aliases that refer to a collection containing them (libyaml registers
+    # the anchor when the collection starts: the node graph has a cycle)
+    "h_yaml_3.yaml": b"""top: &a
+  inner: *a
+  other: 1
+""",
+    "h_yaml_4.yaml": b"""- &l [1, 2, *l]
+- {k: &m {x: [*m]}}
+""",
 }
 
 KEYWORDS = [b"[Version]", b"[Number of Ports]", b"[Two-Port Data Order]",
